@@ -500,8 +500,11 @@ class Gen:
                 else:
                     p = "".join(r.choice("01-") for _ in range(w))
                     q = p if w < 2 or r.random() < 0.7 else p[:1] + r.choice((" ", "\t", "  ")) + p[1:]
-                    if r.random() < 0.04:
-                        q = r.choice((q + "0", q[1:], "x" + q[1:], q + "_"))      # wrong width / illegal character
+                    if self.malformed and r.random() < 0.3:
+                        # wrong width / illegal character (SyntaxError): only in the malformed stream, because a rejected
+                        # sub-term must not hide under an operator that drops its operand (empty stepped slice, matches()
+                        # whose integer patterns are all unrepresentable, replicate(0)); c01.py draws them at top level
+                        q = r.choice((q + "0", q[1:], "x" + q[1:], q + "_"))
                     raw.append(q)
                     norm.append(p)
             return ["d_match", e, norm, raw]
